@@ -872,7 +872,7 @@ def check_output_requests(ctx, d, bases, res):
         effective += 1 if changed else 0
         tables += 1 if tchanged else 0
         for kind, where, xl, yl in tbad[:2]:
-            key = f'run-output:stale-header:{o["name"]}' if kind == 'stale-header' else f'run-output:{kind}:{k}:{o["name"]}'
+            key = f'run-output:{kind}:{o["name"]}'
             if key not in seenk:
                 seenk.add(key)
                 ctx.violate('property', key, f'with "Units:{o["name"]}, {x["u"]}" the table {where} shows "{yl}" where it showed "{xl}": ' +
@@ -1039,8 +1039,7 @@ def replay(ctx, data):
         print(f'registry: 1 {e[0]} = {got} {e[1]} (factor, offset); frozen reference: ({float(e[2])!r}, {float(e[3])!r})')
         print('property', 'holds' if ok else 'VIOLATED', 'on this input')
         return 0 if ok else 1
-    print('unknown replay part', part)
-    return 1
+    return more.replay_more(sys.modules[__name__], ctx, d, inp)
 
 
 def replay_loop(ctx, d, inp):
